@@ -403,7 +403,7 @@ def splice_loops(body, loops, cname):
                 if d == 0: break
             j += 1
         if k in loops:
-            out.append(body[pos:j + 1]); out.append('\n' + loops[k] + '\n'); pos = j + 1
+            out.append(body[pos:j + 1]); out.append('\n#ifndef NIX_NO_LOOP_CONTRACTS\n' + loops[k] + '\n#endif\n'); pos = j + 1
             used.add(k)
         k += 1
     out.append(body[pos:])
